@@ -296,6 +296,25 @@ def run(ctx):
     C.rule('C13-MUST-unique', 'create_copied_sub_element_inner links the copy only after make_unique_item_name ran; the only path around the call is the not-identifiable edge')
     import c04 as _c04
     _c04.unique_before_link(C, P, 'C13-MUST-unique', ('ElementRaw::create_copied_sub_element_inner',))
+    # the copy is filtered by the version of the DESTINATION: both public entry points hand the raw copier self.min_version()
+    C.rule('C13-MUST-destversion', 'Element::create_copied_sub_element and ..._at pass the minimum version of the receiving element (self), not of the source, to the raw copier')
+    from flow import origins_through_try, is_param_itself
+    for fn in ('Element::create_copied_sub_element', 'Element::create_copied_sub_element_at'):
+        b = P.find(fn)
+        if b is None:
+            C.anchor_missing('C13-MUST-destversion', fn)
+            continue
+        okd = False
+        site = None
+        for pos, t in b.iter_calls():
+            if call_matches(t, r'ElementRaw>?::create_copied_sub_element(_at)?$'):
+                site = pos
+                va = [a for a in t['args'] if is_local_op(a) and 'AutosarVersion' in (b.local_ty(a['l']) or '')]
+                if va:
+                    srcs = [og[1] for og in origins_through_try(b, va[0]) if og[0] not in ('param', 'const', 'place') and isinstance(og[1], dict) and og[1].get('k') == 'call']
+                    okd = bool(srcs) and all(call_matches(c_, r'impl Element>::min_version$') and c_['args'] and is_param_itself(b, c_['args'][0], 1) for c_ in srcs)
+        C.check(okd, 'C13-MUST-destversion', fn.split('::')[-1] + '|copy-filtered-by-the-destination-version', '%s does not pass self.min_version() to the raw copier (e.g. the version of the source element): '
+                'a copy into an older model keeps parts that do not exist there, a copy into a newer one drops parts that do' % fn, b.where(site) if site else '%s:%d' % (b.file, b.line), sample={'fn': fn, 'version': 'self.min_version()'})
     return C.finish('Structural clauses of copy faithfulness and independence on the MIR of deep_copy / create_copied_sub_element* / duplicate: provenance of every stored child, '
                     'by-value copies, lock modes per owner, field coverage against the ADT table, provenance of the membership handles. '
                     'Registration of the copy in both indexes is decided by C04-PAIR-index / C05-PAIR-origins. Does not decide textual equality of serialisations.')
